@@ -83,12 +83,19 @@ CLAIMED = {
         technique="contract-based deductive verification: symbolic execution of the real Python source against sidecar contracts, in-context lemma chain, VCs discharged by z3 (cvc5 for unknowns)",
         design="3/C02",
     ),
+    "C09": dict(
+        category="other",
+        text="BOUNDED (not an unbounded proof): the real Tracker.track (from_config, get_features, update_candidates, get_scores, scores_to_cost_matrix, assign_tracks, both candidate classes incl. update_tracks/add_new_tracks/get_new_track_id, hungarian_matching and the real greedy_matching code) is symbolically executed from the initial tracker state through every history of up to 2 frames (thorough: 3 frames for Hungarian) with 0..2 detections per frame, for both candidate methods and both matching algorithms; instance scores, the new-track threshold and all association scores are symbolic and every matching outcome is explored (all optimal Hungarian assignments, all orders of the symbolic costs for greedy). Per frame: no exception, only given detections returned, none twice, every detection above the threshold returned with a track, tracks pairwise distinct. Three defects of the pinned tree were found this way and two repaired (fix: commit in known_findings.txt).",
+        note="feature extraction and the scoring functions are abstracted to arbitrary finite values (safety depends on them only through the data flow), so the three feature/score combinations collapse into one; window size 1; no inductive invariant over arbitrary tracker states (histories start from the empty state); scipy linear_sum_assignment under a trusted contract (optimal complete assignment, ValueError when infeasible).",
+        technique="contract-based symbolic execution of the real code over bounded histories (bounded stand-in), obligations discharged by z3",
+        design="3/C09",
+    ),
 }
 
 NOT_APPLICABLE = {
     "C19": "no pre/postcondition on a function of this repository expresses it: training completion, artifacts and crash-point file contents live in Lightning/wandb/OmegaConf and the file system (DESIGN.md section 5)",
 }
-NOT_BUILT = ["C03", "C08", "C09", "C10", "C12", "C14", "C16", "C18"]
+NOT_BUILT = ["C03", "C08", "C10", "C12", "C14", "C16", "C18"]
 
 
 def main():
